@@ -308,3 +308,5 @@ NOT_APPLICABLE = {
     'C10': 'correctness of the external LP solver (minilp simplex) seen through a 20-line adapter: no contract within reach can decide it; a contract on solve_linprog would have to be assumed',
     'C19': 'fmt::Formatter / string output: Verus has no model of core::fmt output or str contents; deciding it means parsing output back, which is testing, not contract verification',
 }
+
+HOOK_COMMITS = ['0e11e31']   # /repo: verif hook: cfg(affinitree_verif) LP fault plan consulted at the top of Polytope::solve_linprog
